@@ -845,6 +845,29 @@ def ok_edge_dominates(f, b, site_bb, callee_pat, extra=None, sl=None):
     return False
 
 
+def site_args(body, bb):
+    """argument operands of the call at `bb` - or, where a view inlined the callee there, the values its parameters were bound to"""
+    t = body.blocks[bb]["term"]
+    if t and t["k"] == "call":
+        return t["args"]
+    if t and t["k"] == "goto" and t.get("inl_call"):
+        return [s["rv"]["op"] for s in body.blocks[bb]["stmts"] if s.get("inl") == "param"]
+    return []
+
+
+def site_dest(body, bb):
+    """destination local of the call at `bb` / of the inlined callee's result"""
+    t = body.blocks[bb]["term"]
+    if t and t["k"] == "call":
+        return t["dest"]["l"]
+    if t and t["k"] == "goto" and t.get("inl_call"):
+        for blk in body.blocks:
+            for s in blk["stmts"]:
+                if s.get("inl") == "ret" and s.get("inl_callee", "").endswith(t["inl_call"].rsplit("::", 1)[-1]):
+                    return s["lhs"]["l"]
+    return None
+
+
 def call_or_inlined(body, *names):
     """blocks where a function named by `names` is called, or - in a normalised view - where its inlined copy starts"""
     out = []
